@@ -26,7 +26,7 @@ prop("C05", True,
 prop("C01", True,
      technique="whole-program VTA call-graph reachability of panic/exit sites with recover barriers, SSA dominance for the parser guard structure, SCC classification of recursion",
      text="Decides structural necessary conditions of 'compilation is total': (1) every call of the generated parser entry runs under a defer/recover barrier that sets the named error result, and the parse tree is returned only on the no-syntax-error outcome of the registered error listener (whose callback sets the flag first); (2) every explicit panic, must-helper (Must*/Assert/PanicOn*) call, non-constant regexp.MustCompile and process-exit call in repository code reachable from Parser.Parse/ParseString/ParseFromFs in the whole-program call graph is protected by a recover barrier on every call path in its own goroutine (process exits can never be protected); sites in the default arm of a type switch that enumerates all implementers of a oneof interface are discharged mechanically; (3) every recursive cycle of repository functions on the compile path is structural (descends the parse tree / protobuf tree by accessor steps), a verified counter recursion, or a verified visited-guard; (4) main2 returns 0 only when err == nil and every Exit code built in pkg/parse is a non-zero constant. A change that removes a barrier, adds an unprotected crash site, starts a walk on an unguarded goroutine, drops the flatten/collector guard or maps an error to status 0 is reported with the call chain.",
-     note="Trusted: go/ssa, VTA call graph (over-approximate; artefact paths are excepted one by one with reasons in tables/exceptions.json), recover semantics. NOT decided: implicit runtime panics inside a protected region are irrelevant, but implicit panics (index, nil map, type assertion) outside every barrier, termination of the ANTLR interpreter and of the hand-written lexer loop, and stack depth on deeply nested input are out of reach. Two baseline rows (logrus.Fatal in the linter) are reported as unconfirmed.",
+     note="Trusted: go/ssa, VTA call graph (over-approximate; artefact paths are excepted one by one with reasons in tables/exceptions.json), recover semantics. NOT decided: implicit runtime panics inside a protected region are irrelevant, but implicit panics (index, nil map, type assertion) outside every barrier, termination of the ANTLR interpreter and of the hand-written lexer loop, and stack depth on deeply nested input are out of reach.",
      design="DESIGN.md §3 C01")
 
 prop("C06", True,
@@ -37,14 +37,14 @@ prop("C06", True,
 
 prop("C19", True,
      technique="unordered-iteration taint analysis on SSA (loop-relative root classification, bottom-up effect summaries over the whole-program VTA call graph, tainted-result propagation) + who-may-call rule for clock/random/non-deterministic encoders",
-     text="Decides a structural necessary condition of determinism: every `range` over a Go map (and every reflect MapKeys/MapRange, and every slice returned in map order) in non-generated generator code is classified; a loop is order-insensitive only if no effect reachable from its body — writes to writers/builders/files held outside the loop, appends to outer slices not sorted before use, string concatenation, last-writer-wins stores and map updates under non-injective keys, early returns of iteration-dependent values, and the same effects performed by callees (summaries with parameter substitution) on storage that lives outside the loop — depends on the visiting order. Binary protobuf encoding must use Deterministic: true; clock/random/pid reads in generator code are reported. A new unsorted map walk that feeds ordered output (the validated 'remove the sort of application names' mutation, and its siblings in every generator) is reported with the sink. Loops flagged on the pinned tree are each an exception with a reason, a reproduced known finding (Mermaid generators, database line-number collisions), or an unconfirmed baseline row.",
-     note="Trusted: go/ssa, VTA call graph; third-party encoders (encoding/json, protojson, prototext, ghodss/yaml) are deterministic; distinct map values do not alias; logging is not output; push/pop stack fields are balanced. Not decided: byte-identity of output (only the absence of order-dependent construction), arr.ai bundles, 39 baseline loops reported as unconfirmed.",
+     text="Decides a structural necessary condition of determinism: every `range` over a Go map (and every reflect MapKeys/MapRange, and every slice returned in map order) in non-generated generator code is classified; a loop is order-insensitive only if no effect reachable from its body — writes to writers/builders/files held outside the loop, appends to outer slices not sorted before use, string concatenation, last-writer-wins stores and map updates under non-injective keys, early returns of iteration-dependent values, and the same effects performed by callees (summaries with parameter substitution) on storage that lives outside the loop — depends on the visiting order. Binary protobuf encoding must use Deterministic: true; clock/random/pid reads in generator code are reported. A new unsorted map walk that feeds ordered output (the validated 'remove the sort of application names' mutation, and its siblings in every generator) is reported with the sink. Loops flagged on the pinned tree are each an exception with a reason, a reproduced known finding (Mermaid generators, database line-number collisions).",
+     note="Trusted: go/ssa, VTA call graph; third-party encoders (encoding/json, protojson, prototext, ghodss/yaml) are deterministic; distinct map values do not alias; logging is not output; push/pop stack fields are balanced. Not decided: byte-identity of output (only the absence of order-dependent construction), arr.ai bundles; no unconfirmed loop is left (each flagged loop is repaired, a known finding, or a reasoned exception).",
      design="DESIGN.md §3 C19, §2 R-ORDER")
 
 prop("C07", True,
      technique="R-ORDER taint analysis on the compile path, SSA dataflow for per-instance recogniser state, defer pairing, who-may-write rule for package variables, capture analysis of goroutine closures",
      text="Decides structural necessary conditions of deterministic and concurrency-safe compilation: no map iteration reachable from Parser.Parse or the pbutil encoders reaches an order-sensitive effect on the model or output (the validated 'post-process applications in map order' mutation is reported with its sink); the generated lexer/parser constructors are called only from the thread-safe wrappers, each of which replaces the Interpreter on every path with a simulator whose ATN, DFA table and prediction cache are created in that call and never read from a package variable; every thread-safe lexer created on the compile path has DeleteLexerState deferred on the same value immediately, the state table is the lock-free hashmap touched only by its per-lexer accessors; no repository package variable is written on the compile path outside init (one sync.Once-guarded exception); goroutine closures of the pipeline write only per-iteration variables or elements indexed by the loop variable; binary encoding uses Deterministic: true.",
-     note="Trusted: go/ssa, VTA call graph, cornelk/hashmap is concurrency-safe, sync.Once, antlr constructors return fresh objects. Not decided: data-race freedom inside the ANTLR runtime or dependencies (no happens-before model), byte-identity of two runs; 18 baseline loops shared with C19 are reported as unconfirmed.",
+     note="Trusted: go/ssa, VTA call graph, cornelk/hashmap is concurrency-safe, sync.Once, antlr constructors return fresh objects. Not decided: data-race freedom inside the ANTLR runtime or dependencies (no happens-before model), byte-identity of two runs.",
      design="DESIGN.md §3 C07")
 
 prop("C08", True,
@@ -68,7 +68,7 @@ prop("C03", True,
 prop("C04", True,
      technique="dominance/control-dependence rules on stores of fresh containers and elements into the shared module tree (SSA, access-path matching), listener identity dataflow",
      text="Decides structural necessary conditions of lossless merging: in the tree listener every store of a fresh (empty) map/slice/message into a container field of the shared module tree (Module.Apps, Application.Types/Endpoints/Views/Wrapped/Attrs/Mixin2, Type.Attrs, Endpoint.Attrs/Stmt/Param, AttrDefs) of an object that is not itself being constructed is control-dependent on that very location being nil (a call that receives the existing content counts as a merge); every insertion of a freshly allocated element into Apps/Types/Endpoints/Views is control-dependent on a failed look-up of the same map and key; the per-file loop walks every file with the one listener it was given and returns that listener's module; the type callback binds the listener's field map to the existing AttrDefs when the type already exists. The validated 're-initialise the type map on the third re-open' mutation and any unguarded re-initialisation are reported; kinds that are replaced on re-declaration by design are ten named exceptions.",
-     note="Trusted: go/ssa; accessor calls (currentApp()) return the same object within a callback. NOT decided: independence from block order and import order, equality with the joined specification. Two baseline rows (collector statements, event attributes replaced on re-declaration) are reported as unconfirmed.",
+     note="Trusted: go/ssa; accessor calls (currentApp()) return the same object within a callback. NOT decided: independence from block order and import order, equality with the joined specification. The two rows formerly unconfirmed (collector statements, event attributes replaced on re-declaration) were reproduced and repaired in /repo.",
      design="DESIGN.md §3 C04")
 
 prop("C02", True,
@@ -100,7 +100,7 @@ prop("C15", True,
      design="DESIGN.md §3 C15")
 prop("C16", True,
      technique="R-REC (identity recursion), R-ORDER, R-DEREF, R-GUARD from the database script generators",
-     text="Decides structural necessary conditions only: the depth computation's self-call with unchanged arguments has no progress guard (known finding: cyclic or dangling foreign keys overflow the stack); emission order depends on map iteration through colliding line-number keys (known findings, reproduced); reference paths are indexed without length tests (one reproduced, the rest unconfirmed baseline rows); the delta path sorts; no new explicit panic is reachable.",
+     text="Decides structural necessary conditions only: the depth computation's self-call with unchanged arguments has no progress guard (known finding: cyclic or dangling foreign keys overflow the stack); emission order depends on map iteration through colliding line-number keys (known findings, reproduced); reference paths are indexed without length tests (one reproduced as a known finding, the rest argued safe as exceptions); the delta path sorts; no new explicit panic is reachable.",
      note="Trusted: go/ssa, VTA. NOT decided: dependency order of emitted tables, the effect of delta scripts (needs an interpreter for the DDL: another technique family); taint of the per-depth table lists is not tracked through the returned map, so removing the delta path's sort is not seen.",
      design="DESIGN.md §3 C16")
 prop("C17", True,
@@ -110,18 +110,18 @@ prop("C17", True,
      design="DESIGN.md §3 C17")
 prop("C20", True,
      technique="whole-program reachability of crash sites (R-GUARD with process-exit semantics for commands), unchecked by-name look-ups (R-DEREF), recursion classification (R-REC) from cmdRunner.Run and every command's Execute",
-     text="Decides structural necessary conditions of 'every command ends with output or an error': from cmdRunner.Run and the Execute method of every cmdutils.Command implementer (16; lsp, repl and test-rig excluded) every explicit panic, must-helper call and non-constant regexp.MustCompile in repository code is under a recover barrier (a deferred recover that exits non-zero counts: an error exit is allowed), process exits carry a non-zero status, look-ups of model elements by name are nil/ok-tested before dereference and reference paths length-tested before indexing, and every recursive cycle is structural, guarded or accepted with a reason. Sites present on the pinned tree are each an exception (argued), a reproduced known finding, a repaired defect, or an unconfirmed baseline row; any new site fails the check with its call chain.",
-     note="Trusted: go/ssa, VTA (over-approximate). NOT decided: implicit runtime panics outside the modelled classes (arbitrary index arithmetic, nil maps, third-party type assertions — e.g. the nil schema dereference found and repaired by hand), loop termination, arr.ai bundles. 40 baseline rows are reported as unconfirmed.",
+     text="Decides structural necessary conditions of 'every command ends with output or an error': from cmdRunner.Run and the Execute method of every cmdutils.Command implementer (16; lsp, repl and test-rig excluded) every explicit panic, must-helper call and non-constant regexp.MustCompile in repository code is under a recover barrier (a deferred recover that exits non-zero counts: an error exit is allowed), process exits carry a non-zero status, look-ups of model elements by name are nil/ok-tested before dereference and reference paths length-tested before indexing, and every recursive cycle is structural, guarded or accepted with a reason. Sites present on the pinned tree are each an exception (argued), a reproduced known finding, a repaired defect; any new site fails the check with its call chain.",
+     note="Trusted: go/ssa, VTA (over-approximate). NOT decided: implicit runtime panics outside the modelled classes (arbitrary index arithmetic, nil maps, third-party type assertions — e.g. the nil schema dereference found and repaired by hand), loop termination, arr.ai bundles. No unconfirmed site is left.",
      design="DESIGN.md §3 C20")
 
 prop("C11", True,
      technique="R-ORDER/R-GUARD/R-DEREF/R-REC from the Load methods of the Go importers, sink-type rule for the text writer, built-in list agreement with the lexer's type words",
-     text="Thin claim, Go importers only — decides: no new map iteration reachable from the importers' Load/LoadFile methods and the Sysl text writer reaches ordered output unsorted (loops flagged on the pinned tree are baseline rows, two are excepted by a commutation argument); explicit panics, process exits, unchecked look-ups and name-following recursion reachable from those entries are classified (known finding: a self-referential XSD complex type overflows the stack); the text writer is constructed over a *bytes.Buffer at every site, so its exit-on-write-error cannot fire; every NativeDataTypes word of the lexer is prefixed by an entry of syslutil.BuiltInTypes, which the type-name escaping rule consults.",
-     note="Trusted: go/ssa, VTA. NOT decided: that importer output compiles as Sysl or is complete (the validated 'required beyond two entries' mutation is invisible); the bundled arr.ai importers (OpenAPI 3 new path, SQL, protobuf) are not Go and are not analysed; 17 baseline loops are blind spots (a sort removed downstream of one of them is not seen).",
+     text="Thin claim, Go importers only — decides: no new map iteration reachable from the importers' Load/LoadFile methods and the Sysl text writer reaches ordered output unsorted (loops flagged on the pinned tree were each reproduced and repaired in /repo, or are reasoned exceptions); explicit panics, process exits, unchecked look-ups and name-following recursion reachable from those entries are classified (known finding: a self-referential XSD complex type overflows the stack); the text writer is constructed over a *bytes.Buffer at every site, so its exit-on-write-error cannot fire; every NativeDataTypes word of the lexer is prefixed by an entry of syslutil.BuiltInTypes, which the type-name escaping rule consults.",
+     note="Trusted: go/ssa, VTA. NOT decided: that importer output compiles as Sysl or is complete (the validated 'required beyond two entries' mutation is invisible); the bundled arr.ai importers (OpenAPI 3 new path, SQL, protobuf) are not Go and are not analysed; a sort removed downstream of an excepted loop is not seen.",
      design="DESIGN.md §3 C11")
 prop("C12", True,
      technique="R-ORDER from the exporter entry points, kind-table agreement (mapper kind strings and primitive names vs schema-builder cases; primitive enum vs Swagger primitive table), who-may-call rule for the reference resolver, R-REC/R-DEREF/R-GUARD",
-     text="Decides structural necessary conditions: ordered arrays (parameters, required, enum) are not filled from unordered iteration (the three loops that did so on the pinned tree were repaired); every kind string the simplified type mapper can produce and every lower-cased primitive name has a case in the OpenAPI 3 schema builder, and every primitive enum value a key in the Swagger primitive table (nine kinds outside the exportable subset are baseline rows); mapper and schema builders recurse structurally, and AppMapper.ResolveTypes — which would make the type tree cyclic — is not reachable from any command or exporter entry; reference splits are indexed only after length checks or are baseline rows.",
+     text="Decides structural necessary conditions: ordered arrays (parameters, required, enum) are not filled from unordered iteration (the three loops that did so on the pinned tree were repaired); every kind string the simplified type mapper can produce and every lower-cased primitive name has a case in the OpenAPI 3 schema builder, and every primitive enum value a key in the Swagger primitive table (nine kinds outside the exportable subset are baseline rows); mapper and schema builders recurse structurally, and AppMapper.ResolveTypes — which would make the type tree cyclic — is not reachable from any command or exporter entry; reference splits are indexed only after length checks or are reasoned exceptions.",
      note="Trusted: go/ssa, VTA; kin-openapi/go-openapi marshal maps with sorted keys. NOT decided: schema content (required-ness, items of optional arrays — both validated mutations are invisible), validity of the document, re-import.",
      design="DESIGN.md §3 C12")
 
@@ -129,6 +129,36 @@ for i in range(1, 21):
     pid = "C%02d" % i
     if pid not in P:
         prop(pid, False, na="check under construction in this round (design in DESIGN.md §3 %s); not claimed until its rules run green with floors and canaries" % pid)
+
+# Additions made in the build round (rules added or sharpened while triaging
+# reports and seeded changes; see DESIGN.md §10.2–§10.5). Appended to the claim.
+EXTRA = {
+ "C01": ("Also decides: every mutex lock (and every token put into a field-held semaphore channel) on the compile path is released on every path to a return, and is not held across a call that can reach another acquisition of it (termination of the import walk).",
+         "The two linter Fatal sites are now reasoned exceptions (reachable only if one file is walked twice, which C05 excludes)."),
+ "C03": ("The bypass set is read through a bool predicate helper applied to the token type when the token pump uses one.", ""),
+ "C04": ("Also decides: a possibly-nil value is stored into a member of a re-openable declaration (Application, Endpoint, Type_Relation, Type_Tuple, …) only when the value is non-nil or the location is nil/empty (KEEP-ON-REOPEN); a callback that finds no entry for a keyed declaration creates it or carries on instead of returning (NO-DROP-ON-ABSENT). Two re-open defects reported by INIT-IF-ABSENT (event attributes, collector statements) were repaired in /repo.", ""),
+ "C05": ("Also decides: blocking resources of the collector are released on all paths and not held across a nested collector call (RESOURCE-PAIR, HELD-ACROSS-NESTING); every parser constructed where the user's parse.Settings are in reach (parameter or receiver field) is given them before use (SETTINGS-APPLIED: the depth limit is not ignored on any load path); the collector appends to no slice of the shared file table (ARRIVAL-ORDER: file order comes from the flatten walk, never from arrival); a non-recursive flatten that keeps a first-in-first-out work list is reported as breadth-first.", ""),
+ "C06": ("Also decides: no decode option used in pkg/pbutil switches DiscardUnknown on (STRICT-DECODE: a well-formed JSON/text document of another schema is refused); semaphore tokens and locks on the pipeline are released on all paths and not held across nested acquisition. NO-HANG leaves field-held semaphores to those rules and reports only synchronisation constructs they cannot decide.", ""),
+ "C07": ("Also decides: the import collector, which runs concurrently once per import, appends to no slice of the shared file table (ARRIVAL-ORDER). R-ORDER attributes the effects of closures and bound methods created in a loop body to that iteration and accepts a sort by comparison function only when it orders the elements themselves.", ""),
+ "C08": ("Also decides: the bytes returned by the file reader reach the text kept for the lexer and every repository consumer unaltered — no trim, replace or normalisation between read and use (TEXT-INTACT), since every position is counted in that text.", ""),
+ "C09": ("Also decides: the bytes written by the JSON/text/binary writers are the encoder's result passed through nothing but the verified anchored clean-up (ENCODED-BYTES-INTACT); file content reaches the decoders unaltered (CONTENT-INTACT: no CR/LF normalisation of binary models); every output file is opened with Create or with O_TRUNC/O_APPEND (WRITE-TRUNCATES).", ""),
+ "C10": ("Also decides: whatever slice is installed as the element list of a set value is built through the de-duplicating appender on every return of the function that builds it (keyed by type, not by name); a value computed from evaluated operands is never kept in evaluator state under a key that does not depend on them (EVAL-STATE: no stale memoisation).", ""),
+ "C11": ("Generic generator rules also evaluated: LOST-UPDATE (a field written on a copy of a map/slice element that is never read or stored back) and MEMO-KEY (a look-up-or-compute table whose remembered value depends on a parameter its key does not depend on). Nine nondeterministic walks of the legacy Swagger importer were reproduced and repaired in /repo.", ""),
+ "C12": ("LOST-UPDATE and MEMO-KEY are evaluated too. Four unordered walks with colliding entries were reproduced and repaired in /repo.", ""),
+ "C13": ("The visited-guard rule requires the release to undo what the membership test reads (presence test → delete/Remove or the counter idiom; value test → zero store). The descent rule requires children that sit in an intermediate container to be handed on inside the loop over it. LOST-UPDATE and MEMO-KEY are evaluated too.", ""),
+ "C14": ("The descent rule requires the statements of every alt choice to be handed on inside the loop over the choices (or accumulated), not only the last one. LOST-UPDATE and MEMO-KEY are evaluated too.", ""),
+ "C15": ("Also decides LOST-UPDATE: a relationship counter (or any field) written on a copy of a map element must be stored back or read.", ""),
+ "C16": ("Also decides DEPTH-IS-MAX: in the depth computation, a depth derived from a referenced table replaces the running depth only after being compared with it.", "Dependency order is still not decided in general; DEPTH-IS-MAX is one necessary condition of it."),
+ "C17": ("Also decides MEMO-KEY (no memo table whose key omits a parameter the remembered value depends on) and LOST-UPDATE.", ""),
+ "C18": ("Also decides LOCAL-IMPORT-MARK: the test 'will the reader take this local import for a remote resource' is applied to the joined, cleaned path the reader receives, not to the path as written.", ""),
+ "C19": ("Effects of closures and bound methods created in a loop body (call-backs handed to walkers) are attributed to the iteration; a sort by comparison function removes map order only if it orders the elements themselves. Twenty flagged loops were reproduced as nondeterministic on specific inputs and repaired in /repo; the rest are reasoned exceptions or reproduced known findings; no unconfirmed row is left.", ""),
+ "C20": ("R-DEREF also examines constant-bound slicing of strings taken from the model and pointer/interface results dereferenced before the error returned with them is tested. All formerly unconfirmed sites were triaged: 13 reproduced (10 repaired in /repo, 3 known findings), 26 argued safe with the invariant cited.", ""),
+}
+for pid, (t, n) in EXTRA.items():
+    if t:
+        P[pid]["text"] += " " + t
+    if n:
+        P[pid]["note"] += " " + n
 
 def main():
     checks, na = [], []
